@@ -182,6 +182,7 @@ func execGcs(f []string) string {
 		m := u64(f[2])
 		key := key16(f[3])
 		items, qs := parseItems(f[4]), parseItems(f[5])
+		itemsKeep, qsKeep := deepCopy(items), deepCopy(qs) // before the first call sees them
 		flt, err := gcs.BuildGCSFilter(uint8(p), m, key, items)
 		if err != nil {
 			return gcsErr(err)
@@ -206,7 +207,6 @@ func execGcs(f []string) string {
 		// slices are untouched afterwards; nil and empty-but-non-nil containers are interchangeable
 		inp := true
 		{
-			itemsKeep, qsKeep := deepCopy(items), deepCopy(qs)
 			for k := 0; k < 3; k++ {
 				g, err := gcs.BuildGCSFilter(uint8(p), m, key, items)
 				if err != nil {
@@ -359,6 +359,9 @@ func execGcs(f []string) string {
 		}
 		var prev chainhash.Hash
 		copy(prev[:], unhex(f[4]))
+		var before bytes.Buffer // inputs as they are before the first call sees them
+		_ = blk.Serialize(&before)
+		prevKeep := deepCopy(prevs)
 		flt, err := builder.BuildBasicFilter(&blk, prevs)
 		if err != nil {
 			return gcsErr(err)
@@ -381,9 +384,6 @@ func execGcs(f []string) string {
 		// and an empty prev-script slice are the same
 		inp := true
 		{
-			var before bytes.Buffer
-			_ = blk.Serialize(&before)
-			prevKeep := deepCopy(prevs)
 			same := func() bool {
 				g, err := builder.BuildBasicFilter(&blk, prevs)
 				if err != nil {
